@@ -655,6 +655,14 @@ func (p *simPeer) conform(u *wireUpdate, pathID uint32) {
 	if p.enc.AS2 {
 		if i := u.find(2); i >= 0 {
 			segs, _ := wParseASPath(u.Attrs[i].Val, false)
+			if u.find(17) < 0 && len(segs) > 0 && len(segs[0].ASNs) > 1 {
+				// an OLD speaker that carries a 4-octet AS number learned elsewhere: AS_TRANS in the
+				// 2-octet AS_PATH and the real number in AS4_PATH (RFC 6793) - perfectly well-formed
+				real := asSeg{segs[0].Type, append([]uint32(nil), segs[0].ASNs...)}
+				real.ASNs[len(real.ASNs)-1] = 4200000100
+				segs[0].ASNs[len(segs[0].ASNs)-1] = 23456
+				u.Attrs = append(u.Attrs, rawAttr{0xc0, 17, wEncodeASPath([]asSeg{real}, false), -1})
+			}
 			u.Attrs[i].Val = wEncodeASPath(segs, true)
 		}
 		if i := u.find(7); i >= 0 {
